@@ -133,3 +133,24 @@ _R5 = {
 }
 for _k, _v in _R5.items():
     CLAIMED[_k]['text'] = CLAIMED[_k]['text'] + ' ' + _v
+
+
+# clauses added in seeding round 6 (language-level traps)
+_R6 = {
+ 'C01': 'Closed over the monitor discipline (M1-M5); no two operands evaluated in unspecified order change the same stream (R01.u); the turn advances round-robin (R02.r).',
+ 'C02': 'The turn goes from slot t to (t+1) mod T for all 136 (T, t) pairs (R02.r); the hash-mode byte selects the documented class (R08.f).',
+ 'C03': 'No assert condition has an effect that a release build would lose (R04.n); round-robin turn (R02.r).',
+ 'C04': 'No assert condition has an effect that a release build would lose (R04.n).',
+ 'C05': 'The hash-mode byte selects the documented class (R08.f); unspecified evaluation order (R01.u).',
+ 'C06': 'The hash-mode byte selects the documented class (R08.f).',
+ 'C08': 'The hash-mode byte selects the documented class (R08.f); unspecified evaluation order (R01.u).',
+ 'C09': 'No mutable object with static storage in the cipher units is read by the block code (R09.s).',
+ 'C10': 'No mutable static in the cipher units (R09.s); the IV is not copied with a C-string function; the counter increments from every member value the step itself stores.',
+ 'C12': 'Unspecified evaluation order (R01.u).',
+ 'C14': 'No mutable static in the pipeline units carries a value between operations (R14.s); assert conditions (R04.n); round-robin turn (R02.r).',
+ 'C15': 'Both streams closed on every path, a failing fclose included (R15.k); per-operation allocations of the singleton are released by its destructor (R15.m).',
+ 'C16': 'In the dialogue the fixed-length decode is reached only with a fresh accepting verdict of the validator (R16.g).',
+ 'C18': 'The seed argument of the encrypt call in main is the seed member of the parameter pack (R18.m).',
+}
+for _k, _v in _R6.items():
+    CLAIMED[_k]['text'] = CLAIMED[_k]['text'] + ' ' + _v
